@@ -11,6 +11,7 @@ Definition outitem_eqb (a b : outitem) : bool :=
   match a, b with
   | ORec r, ORec r' => amap_eqb r r'
   | OLine s, OLine s' => beqb s s'
+  | OText s, OText s' => beqb s s'
   | _, _ => false
   end.
 
@@ -29,6 +30,35 @@ Definition pcase := (Z * prog * bool * list amap * Z * list outitem)%type.
 Definition classify (c : pcase) : N :=
   let '(vb, p, q, ins, status, outs) := c in
   match run_prog (variant_of vb) p q harness_fuel ins with
+  | Ok out => if (status =? 0) && outs_eqb out outs then 0%N else 1%N
+  | Fatal => if status =? 1 then 0%N else 1%N
+  | OutOfFuel => 2%N
+  | Unsup => 3%N
+  end.
+
+(* a then-chain of put verbs: each verb is a program run of its own (own functions, own oosvars, own stack); the records a
+   verb emits are the input of the next.  Text printed by a verb other than the last is outside the modelled chain. *)
+Fixpoint recs_of (outs : list outitem) : option (list amap) :=
+  match outs with
+  | [] => Some []
+  | ORec r :: t => match recs_of t with Some rs => Some (r :: rs) | None => None end
+  | _ :: _ => None
+  end.
+
+Fixpoint run_chain (vr : variant) (ps : list (prog * bool)) (fuel : nat) (ins : list amap) : res (list outitem) :=
+  match ps with
+  | [] => Ok (map ORec ins)
+  | [(p, q)] => run_prog vr p q fuel ins
+  | (p, q) :: rest =>
+      do outs <- run_prog vr p q fuel ins;
+      match recs_of outs with Some rs => run_chain vr rest fuel rs | None => Unsup end
+  end.
+
+Definition ccase := (list (prog * bool) * list amap * Z * list outitem)%type.
+
+Definition classify_chain (c : ccase) : N :=
+  let '(ps, ins, status, outs) := c in
+  match run_chain documented ps harness_fuel ins with
   | Ok out => if (status =? 0) && outs_eqb out outs then 0%N else 1%N
   | Fatal => if status =? 1 then 0%N else 1%N
   | OutOfFuel => 2%N
